@@ -14,9 +14,9 @@ from contracts import c06_handles
 from vlib.common import PROVED, REFUTED, UNKNOWN
 
 # finding id -> regex over obligation names (a REFUTED obligation is `refuted-known` only while the id is listed as known)
-KNOWN = [
-    (c06_handles.FID_STALE, re.compile(r"^statistics\.cache_dropped_when_row_groups_change\[")),
-]
+# (the stale statistics cache after in-place edits was repaired in /repo 890afcf: `fixed-C04-statistics-cache-stale-after-in-place-edit`
+# suppresses nothing, statistics.cache_dropped_when_row_groups_change[*] must be PROVED)
+KNOWN = []
 
 FUNCTION = [
     (re.compile(r"\[__init__"), "api.ParquetFile.__init__"),
